@@ -1,2 +1,5 @@
 import ThaiLintModel.Core.Tree
-import ThaiLintModel.C01.Model
+import ThaiLintModel.Core.Glob
+import ThaiLintModel.Core.GlobLemmas
+import ThaiLintModel.C01.Props
+import ThaiLintModel.C14.Props
